@@ -209,7 +209,9 @@ impl<R: DynamicChannelRegion> RegionHandler for DynamicChannelPlan<R> {
     }
 
     fn get_datarate(&self, dr: u8) -> Option<&Datarate> {
-        R::datarates()[dr as usize].as_ref()
+        // `dr` comes straight from received frames (eg: the RX2 data rate of a JoinAccept) and
+        // can be 15, one past the table.
+        R::datarates().get(dr as usize)?.as_ref()
     }
 
     fn select_tx_channel<RNG: RngCore>(
